@@ -60,7 +60,7 @@ def h_store_step(c0: bytes, c1: bytes, c2: bytes, target: int, body: bytes, hist
 
 
 def body_store_fault(c0, c1, target, body, k):
-    """A fault (ENOSPC on a file / object write, failed ref update) at the k-th mutation: the operation is not
+    """A fault (ENOSPC on a file / object / index write, failed ref update) at the k-th mutation: the operation is not
     acknowledged, so nothing observable may change - through the SAME store object and through a fresh one."""
     kind, op = ctx.PART
     f = _store.step(kind, [c0, c1, b""], 2, op, target, body, 0, fault_at=k)
@@ -97,6 +97,32 @@ def h_store_fault(c0: bytes, c1: bytes, target: int, body: bytes, k: int) -> boo
     post: _
     """
     return run(body_store_fault, c0, c1, target, body, k)
+
+
+def body_store_fault_menu(i0, target, bi):
+    """`body_store_fault` with state, target and written body from the token menu and EVERY fault point k = 1..12 (file
+    and object writes, the ref update, the write of the new index) looped inside: exhaustive over the menu."""
+    from xv.core import picks, untraced
+    c0, target, body = picks((i0, target, bi), (_store.MENU_TOK[:6], 6, _store.MENU_TOK[1:]))
+    with untraced():
+        seen = "no-fault"
+        for c1 in (b"", b"xb"):
+            for k in range(1, 13):
+                r = body_store_fault(c0, c1, target, body, k)
+                if not r[0]:
+                    ctx.LAST_EXC = "state (%r, %r) target %d body %r fault at mutation %d: %s" % (c0, c1, target, body, k, r[1])
+                    return r
+                if r[1].startswith("fault:") or r[1] == "known":
+                    seen = "faulted"
+        return (True, seen)
+
+
+def h_store_fault_menu(i0: int, target: int, bi: int) -> bool:
+    """
+    pre: 0 <= i0 < 6 and 0 <= target < 6 and 0 <= bi < 6
+    post: _
+    """
+    return run(body_store_fault_menu, i0, target, bi)
 
 
 OPS = [(0, 0), (0, 1), (0, 2), (0, 3), (1, 0), (1, 1), (1, 3), (2, 0)]
@@ -1072,10 +1098,17 @@ HARNESSES = [
             classes=[("fault:obj-add", ("bare", 0)), ("fault:ref-set", ("bare", 1)), ("fault:append", ("tree", 0)),
                      ("fault:truncate", ("vdir", 0)), ("no-fault", ("tree", 1))],
             parts={"quick": [(k, op) for k in mstore.KINDS for op in (0, 1)]}, budget={"quick": 60, "thorough": 420},
-            describe="a put / delete whose k-th mutation fails (ENOSPC on a file or object write, failed ref update): the "
+            describe="a put / delete whose k-th mutation fails (ENOSPC on a file, object or index write, failed ref update): the "
                      "request is not acknowledged and neither the same store object nor a fresh one sees any change; "
                      "part = (back end, operation)",
             encodes=_store.STEP_ENCODES),
+    Harness("store_fault_menu", h_store_fault_menu, body_store_fault_menu, classes=[("faulted", ("tree", 0)), ("faulted", ("bare", 1))],
+            parts={"quick": [(k, op) for k in mstore.KINDS for op in (0, 1)]}, budget={"quick": 100, "thorough": 200},
+            per_path_timeout={"quick": 60, "thorough": 60},
+            describe="store_fault over the token menu (state, target, written body chosen by the solver) with every fault point "
+                     "k = 1..12 looped inside - file and object writes, the ref update, the write of the new index: the request "
+                     "is not acknowledged and neither the same store object nor a fresh one sees any change; exhaustive over the menu",
+            encodes=_store.STEP_ENCODES + ["xandikos.store.git.locked_index.__exit__"]),
     Harness("recreate", h_recreate, body_recreate, classes=["recreated:2", "recreated:1"], bounds=_B,
             budget={"quick": 90, "thorough": 420}, per_path_timeout={"quick": 60, "thorough": 120},
             describe="DELETE of a calendar collection, MKCALENDAR at the same path, then PUTs (one re-using the old "
